@@ -16,6 +16,7 @@ RULE = ('Hypothesis draws (signing key from a 25-key pool of RSA/DSA/ECDSA/EdDSA
         'truthy, the reference rejects the mutated triple, and PGPy reached a verdict or raised; distinct by (algorithm, hash, '
         'kind, carrier, mutation class, target field).')
 RULE += ' Round-2 class: issuer re-pointed to an encryption-only (ECDH) subkey of the verifying certificate. Round-3 / audit classes: a subject presented to a standalone or timestamp signature; the same photo attribute in another encoding (length form, reserved octets); undefined bits in flag subpackets; verification of a copy.copy() of the signature object as a further carrier.'
+RULE += ' Third-party confirmations (0x50) by the independent signer over signature A are presented with A, another signature, a document, a key and a user id.'
 ASSUMPTIONS = ['refpgp.sig (independent 5.2.4 implementation, self-tested on 62 GnuPG-made signatures) decides whether a mutation is semantic; '
                'mutations it still accepts are skipped as trivial', 'the left-16-bits field is not asserted (not named by the statement)',
                'DSA/ECDSA (r, n-s) malleability is excluded from the mutation set by construction',
@@ -558,6 +559,51 @@ def matrix(arg):
     return rec
 
 
+def confirm(arg):
+    """third-party confirmation (0x50): a signature over another signature packet (RFC 4880 5.2.4).  The independent signer confirms
+    signature A; PGPy must accept that over A only -- not over signature B, a document, a key or a user id -- and a 0x50 signature whose
+    hash covers nothing (no subject octets at all) says nothing about any subject."""
+    import pgpy
+    from pgpy.constants import SignatureType
+    fam, halg = arg
+    rec = harness.Rec()
+    sec = keypool.ref_secret(fam)
+    other = keypool.ref_secret('ed25519-1')
+
+    def docsig(doc, t):
+        return rsig.sign(other, 0x00, 8, ('doc', doc), keypool.std_hashed(t, other.pub.fingerprint), keypool.sp(16, other.pub.keyid))
+    A, B = docsig(b'contract A', 1600000000), docsig(b'contract B', 1600000001)
+    hashed = keypool.std_hashed(1600000100, sec.pub.fingerprint)
+    unh = keypool.sp(16, sec.pub.keyid)
+    s_real = rsig.sign(sec, 0x50, halg, ('sig', A), hashed, unh)
+    # the same with nothing hashed in front of the trailer: computed as over a zero-length document
+    s_nothing = rsig.build_sig_body(0x50, *_sign_raw(sec, halg, hashed, unh))
+    pub = keypool.pgpy_key(keypool.ref_cert(fam, secret=False))
+    oa, ob = (pgpy.PGPSignature.from_blob(wire.build_packet(2, x)) for x in (A, B))
+    subjects = [('signature-A', oa), ('signature-B', ob), ('document', b'contract A'), ('text', 'contract A'), ('key', pub), ('user-id', pub.userids[0])]
+    for name, body, good in (('confirmation-of-A', s_real, {'signature-A'}), ('confirmation-of-nothing', s_nothing, set())):
+        so = pgpy.PGPSignature.from_blob(wire.build_packet(2, body))
+        for sname, subj in subjects:
+            case = {'kind': 'confirm', 'fam': fam, 'halg': halg, 'sig': name, 'subject': sname}
+            rec.case(('confirm', fam, halg, name, sname), True, ['type/0x50', 'confirm/' + name, 'subject/' + sname], {'signer': fam, 'hash': halg, 'signature': name, 'presented_with': sname})
+            try:
+                ok = bool(pub.verify(subj, so))
+            except Exception:   # noqa
+                ok = False
+            if ok and sname not in good:
+                rec.finding('subject', 'confirmation-verifies-over-another-subject/%s' % name, case, 'presented with: ' + sname)
+            if not ok and sname in good:
+                rec.finding('control', 'valid-confirmation-does-not-verify', case, '')
+    return rec
+
+
+def _sign_raw(sec, halg, hashed, unh):
+    """-> (pkalg, halg, hashed, unhashed, left16, mpis) of a type-0x50 signature whose hash input is the trailer alone"""
+    pre = bytes([4, 0x50, sec.pub.alg, halg]) + len(hashed).to_bytes(2, 'big') + hashed
+    dg = rsig.digest(halg, pre + b'\x04\xff' + len(pre).to_bytes(4, 'big'))
+    return sec.pub.alg, halg, hashed, unh, dg[:2], rsig.sign_digest(sec, halg, dg)
+
+
 def run(tier, seed):
     fams = ['ed25519-0', 'ecdsa-p256-0', 'dsa1024-0', 'rsa1024-0', 'ecdsa-p521-0', 'ecdsa-k256-0', 'ed25519-publead0', 'ecdsa-p384-0',
             'rsa2048-2', 'dsa2048-1']
@@ -565,6 +611,8 @@ def run(tier, seed):
     for f in (fams if tier == 'thorough' else fams[:6]):
         for part in range(2):
             tasks.append(('matrix', (f, part, 2, 2 if tier == 'quick' else 6)))
+    for j, f in enumerate(fams if tier == 'thorough' else fams[:6]):
+        tasks.append(('confirm', (f, sigkit.HASH_IDS[(j + seed) % 4])))
     n = 260 if tier == 'quick' else 6000
     budget = 70 if tier == 'quick' else 900
     for i in range(16 if tier == 'quick' else 32):
@@ -577,6 +625,9 @@ def dispatch(task):
 
 
 def replay(case):
+    if case.get('kind') == 'confirm':
+        r = confirm((case['fam'], case['halg']))
+        return [(f['clause'], f['cause'], f['detail']) for f in r.findings]
     rec = harness.Rec()
     evaluate(_norm(case), rec)
     return [(f['clause'], f['cause'], f['detail']) for f in rec.findings]
